@@ -92,7 +92,8 @@ Section Compile.
          (map (fun t => (sd t, t)) (r_outs r))
          (map (fun t => (su t, t)) (r_rets r))
          (map (fun t => (su t, t)) (r_recv r))
-         (zlist (r_zero r)) (r_tepos r) (su errT).
+         (zlist (r_zero r)) (r_tepos r)
+         (match r_class r with ClFallible => su errT | _ => None end).
 End Compile.
 
 (* ---------- the static part and whole sessions, environment style ---------- *)
